@@ -154,9 +154,13 @@ Fixpoint print_pre (i : ditem) : list Z :=
     ++ [123] ++ concat (map print_pre ks) ++ lead dc ++ hws (d_trail dc) ++ [125]
   end.
 
-(* one white space character that ends a section name of the enclosed style *)
+(* what ends a section name of the enclosed style: one white space character, or a comment
+   directly behind the name (it runs to the end of the line) *)
 Definition name_end (d : deco) : list Z :=
-  match ws (d_mid1 d) with [] => [10] | c :: _ => [c] end.
+  match d_tcomment d with
+  | Some c => [35] ++ ctext c ++ [10]
+  | None => match ws (d_mid1 d) with [] => [10] | c :: _ => [c] end
+  end.
 
 (* enclosed style with one delimiter:  %name  options ...  (the next % or the end closes) *)
 Fixpoint print_enc (i : ditem) : list Z :=
@@ -184,21 +188,53 @@ Definition print (st : style) (ds : list deco) (l : list item) : list Z :=
   print_ditems st dl (fst (take_deco r)).
 
 (* ---------------------------------------------------------------- well-formed trees *)
-(* characters a name can be written with: no newline, delimiter, comment character or path separator *)
+(* characters a name can be written with: no newline, comment character or path separator; white
+   space other than the newline may stand inside a name.  Prefix style and the option names of
+   the other styles: no assign character either; prefix style: no brace. *)
 Definition name_char (st : style) (c : Z) : bool :=
   byteb c && negb (c =? 10) && negb (c =? 35) && negb (c =? 46) && negb (c =? 61) &&
   match st with
   | StPre => negb (c =? 123) && negb (c =? 125)
-  | StEnc => negb (c =? 37) && negb (isspace c)
-  | StSep => negb (c =? 91) && negb (c =? 93) && negb (isspace c)
-  | StEncD => negb (c =? 91) && negb (c =? 93) && negb (isspace c)
+  | _ => true
+  end.
+(* section names of the other styles: the assign character is an ordinary character there; the
+   closing bracket ends a name of the separated style *)
+Definition sname_char (st : style) (c : Z) : bool :=
+  byteb c && negb (c =? 10) && negb (c =? 35) && negb (c =? 46) &&
+  match st with
+  | StSep => negb (c =? 93)
+  | _ => true
   end.
 
-Definition wf_name (st : style) (take : Z) (n : list Z) : bool :=
+(* where the white space inside a name may stand.  Section names of the enclosed family end at the
+   first white space character, so they hold none.  Option names of the enclosed / separated family:
+   the code before docs/C09_option_name_blank.diff ([raw] = false, see [allow]) drops white space that
+   follows the FIRST name character, so the second character must not be white space there. *)
+Inductive role := ROpt | RSec.
+Definition blanks_ok (st : style) (r : role) (raw : bool) (n : list Z) : bool :=
+  match st, r with
+  | StPre, _ => true
+  | StSep, RSec => true
+  | StEnc, RSec => forallb (fun c => negb (isspace c)) n
+  | StEncD, RSec => forallb (fun c => negb (isspace c)) n
+  | _, ROpt => raw || negb (isspace (nth 1 n 0))
+  end.
+
+(* the characters of a name by style and role; an option line of the other styles must not begin
+   with the section start character *)
+Definition chars_ok (st : style) (r : role) (n : list Z) : bool :=
+  match st, r with
+  | StPre, _ => forallb (name_char StPre) n
+  | _, RSec => forallb (sname_char st) n
+  | StEnc, ROpt => forallb (name_char st) n && negb (hd 0 n =? 37)
+  | _, ROpt => forallb (name_char st) n && negb (hd 0 n =? 91)
+  end.
+
+Definition wf_name (st : style) (r : role) (raw : bool) (take : Z) (n : list Z) : bool :=
   match n with
   | [] => false
-  | c0 :: _ => forallb (name_char st) n && negb (isspace c0) && negb (isspace (last n 0))
-               && (ncheck_go n true take =? 0) && (Z.of_nat (length n) <=? IDENT_MAX)
+  | c0 :: _ => chars_ok st r n && negb (isspace c0) && negb (isspace (last n 0))
+               && (ncheck_go n true take =? 0) && (Z.of_nat (length n) <=? IDENT_MAX) && blanks_ok st r raw n
   end.
 
 (* value lengths stay inside the int the C code counts the post data with *)
@@ -208,9 +244,9 @@ Definition wf_value (v : list Z) : bool :=
 
 Fixpoint wf_item (st : style) (a : allow) (depth : nat) (i : item) : bool :=
   match i with
-  | Opt n v => wf_name st (aopt a) n && wf_value v
+  | Opt n v => wf_name st ROpt (araw a) (aopt a) n && wf_value v
   | Sec n ks =>
-    wf_name st (asect a) n &&
+    wf_name st RSec (araw a) (asect a) n &&
     match st, depth with
     | StPre, _ => forallb (wf_item st a depth) ks
     | _, O => forallb (fun k => match k with Opt _ _ => wf_item st a (S O) k | Sec _ _ => false end) ks
